@@ -22,7 +22,7 @@ def run(ctx):
     if resm["violated"] != "IterOk":
         raise vlib.ToolError("spec mutant (cumulative iterator start) was not rejected by TLC")
     ctx.add_part(spec_mutant="cumulative iterator start", rejected_by="IterOk")
-    cases = vlib.cases_from(res["out"])
+    cases = vlib.nonempty(vlib.cases_from(res["out"]), "MC_Tokens")
     hcases = []
     for i, c in enumerate(cases):
         sent = c["sent"]
